@@ -10,7 +10,7 @@ CONSTANTS
   Hints = {"-"}
   TMenu = {"ghosts", "where_clause", "child_parents", "parent", "ghost"}
   MMenu = {"map", "ghost_d", "literal", "where_clause", "child_parents"}
-  FixedTraits = <<>>
+  FixedTraits <- NoTraits
   SpellAll = TRUE
   TCps = {"-", "A"}
   MCps = {"-", "Z"}
